@@ -4,6 +4,8 @@ import (
 	"fmt"
 	"io"
 	"sort"
+
+	"github.com/ulikunitz/lz"
 )
 
 // ---------------------------------------------------------------------------
@@ -252,6 +254,8 @@ type SimWriter struct {
 	raised  []error // error of each fired fault, in order
 	limit   int     // >0: panic when calls exceeds it (unbounded-work guard)
 	nilAns  int     // (0, nil) answers given so far (contract violating; C06 only)
+	dead    int     // plan.DeadFrom
+	deadErr string
 }
 
 // raisedDuring reports whether err is one of the errors raised since the
@@ -274,6 +278,7 @@ func NewSimWriter(plan *WPlan, fired map[string]int) *SimWriter {
 				w.maxCall = e.Call
 			}
 		}
+		w.dead, w.deadErr = plan.DeadFrom, plan.DeadErr
 	}
 	return w
 }
@@ -349,8 +354,42 @@ func (w *SimWriter) Write(p []byte) (int, error) {
 		w.lastErr = err
 		return n, err
 	}
+	if w.dead > 0 && idx >= w.dead-1 {
+		err := w.errFor(false, w.deadErr, 1<<20)
+		w.faults++
+		w.raised = append(w.raised, err)
+		w.fire("writer_dead")
+		w.lastErr = err
+		return 0, err
+	}
 	w.sink = append(w.sink, p...)
 	return len(p), nil
+}
+
+// writerSentinels are well-known error values a destination can fail with: a
+// destination that is itself a bounded buffer of this module answers
+// lz.ErrFullBuffer, a closed pipe io.ErrClosedPipe. The library must hand them
+// back like any other writer error and not mistake them for its own.
+var writerSentinels = map[string]error{
+	"full":   lz.ErrFullBuffer,
+	"empty":  lz.ErrEmptyBuffer,
+	"eof":    io.EOF,
+	"closed": io.ErrClosedPipe,
+}
+
+func (w *SimWriter) errFor(short bool, name string, id int) error {
+	if short {
+		return io.ErrShortWrite
+	}
+	if e := writerSentinels[name]; e != nil {
+		return e
+	}
+	se := w.errs[id]
+	if se == nil {
+		se = &SimErr{Who: "writer", ID: id}
+		w.errs[id] = se
+	}
+	return se
 }
 
 // ---------------------------------------------------------------------------
